@@ -989,6 +989,11 @@ void flexinit (int argc, char **argv)
 			ctrl.never_interactive = true;
 			break;
 
+		    case OPT_ANSI_DEFINITIONS:
+		    case OPT_ANSI_PROTOTYPES:
+			/* deprecated, ignored */
+			break;
+
 		    case OPT_ARRAY:
 			ctrl.yytext_is_array = true;
 			break;
